@@ -130,6 +130,26 @@ def strictifyOkB (row out : List (Option Nat)) (first : Bool) : Bool :=
     | _, _ => true) &&
   (!first || allPairsB (fun p q => !(p.1.isSome && p.1 == q.1) || ltR p.2 q.2) (row.zip out))
 
+/-! ### B'. tie breaking for ANY encoding of a weak order (after `fix:` F14)
+
+The pinned code wrote new ranks only into tie groups and left untied entries untouched, which is right only when ties are
+numbered "competition style" (`wfTiesB`: 1,1,3). On a densely numbered row (1,1,2 — accepted by `ProfileWithTies.of`) it
+returned 1,2,2. After the repair every non-NaN position receives 1 + its index in the sorted order. -/
+
+/-- repaired `profile_with_ties_to_strict_profile` on one row -/
+def breakTiesPos (row : List (Option Nat)) (order : List Nat) : List (Option Nat) :=
+  (List.range row.length).map fun j =>
+    if (valAt row j).isSome then some (order.idxOf j + 1) else none
+
+/-- checker for tie breaking on an arbitrary row with ties: `strictifyOkB` without the clause that speaks about the
+competition-style block of a tie class -/
+def strictOkB (row out : List (Option Nat)) (first : Bool) : Bool :=
+  out.length == row.length &&
+  (row.zip out).all (fun p => p.1.isSome == p.2.isSome) &&
+  allPairsB (fun a b => a != b) (out.filterMap id) &&
+  (row.zip out).all (fun p => (row.zip out).all fun q => !ltR p.1 q.1 || ltR p.2 q.2) &&
+  (!first || allPairsB (fun p q => !(p.1.isSome && p.1 == q.1) || ltR p.2 q.2) (row.zip out))
+
 /-! ## C. `incomplete_profile_to_complete_profile` (one row)
 `mode`: 0 = "accept", 1 = "first", anything else = "random". -/
 
